@@ -120,7 +120,8 @@ def corpus_cases():
         [c for c in hist.matrix_cases("c05t", ["mem", "alt_mem", "ovl_mm"]) if "_movefile_" in c.name or "_copyfile_" in c.name
          or "_movedir_" in c.name or "_copydir_" in c.name] + hist.wo_names_cases("c05") + \
         hist.size_cases("c05", ["mem", "phys", "alt_mem", "ovl_mm", "ovl_sub"]) + \
-        hist.neighbour_name_cases("c05", ["mem", "phys", "alt_mem", "alt_alt", "ovl_mm", "ovl_m"]) + stale_cases()
+        hist.neighbour_name_cases("c05", ["mem", "phys", "alt_mem", "alt_alt", "ovl_mm", "ovl_m"]) + stale_cases() + \
+        hist.deep_tree_cases("c05", ["mem", "phys", "alt_mem", "ovl_mm", "ovl_sub"])
 
 
 P = P5("C05", CONFIGS, corpus_cases=corpus_cases, quick_cases=8, thorough_cases=100, nops=(8, 18), oracle=oracle, known=c03.known,
